@@ -101,7 +101,10 @@ def ws2dwcv(y, nodata, llas, robust, out, lopt):
                 # more than half of the residuals coincide (constant, linear or
                 # mostly flat series) up to rounding noise: no robust scale, keep
                 # the current weights
-                if mad > 1e-9 * max(1.0, np.abs(yv).max()):
+                # (the noise floor scales with the range of the valid data, so
+                # that shifting the series by a constant cannot change the decision)
+                y_valid = yv[w != 0]
+                if mad > 1e-9 * max(1.0, y_valid.max() - y_valid.min()):
                     u_arr = r_arr / (1.4826 * mad * np.sqrt(1 - gamma.sum() / n))
 
                     new_weights = (1 - (u_arr / 4.685) ** 2) ** 2
